@@ -173,6 +173,9 @@ func collectTemplates(fset *token.FileSet, env tenv, n ast.Node, ext string, out
 		}
 		lit, ok := call.Args[0].(*ast.BasicLit)
 		if !ok || lit.Kind != token.STRING {
+			// a format that is not a literal (built by concatenation, passed as a parameter): which query it
+			// writes cannot be read off the source; unresolved, so the tie fails instead of losing the template
+			*out = append(*out, ttemplate{ext: ext, text: exprString(fset, call.Args[0]), clauses: []tclause{{[]string{"?format"}, nil}}})
 			return true
 		}
 		text, err := strconv.Unquote(lit.Value)
